@@ -116,6 +116,7 @@ type vpCfg struct {
 
 	// not part of the abstract record: an existing Redis to share (a restarted / second proxy instance)
 	AdvertisePKCE string
+	EmailsViaSymlink bool // the e-mails file is reached through symlinks (versions are published by swapping a link)
 	UnsetClaimNames bool // structured provider configuration without e-mail / groups claim names
 	shareRedis *miniredis.Miniredis `json:"-"`
 	shareIdP   *vpIdP               `json:"-"`
@@ -215,6 +216,7 @@ type vpWorld struct {
 	secret  string
 	name    string
 	emailsPath   string
+	emailsDir    string // (symlinked layout) the directory holding data_vN and the "current" link
 	htpasswdPath string
 }
 
@@ -365,7 +367,18 @@ func vpNewWorld(cfg *vpCfg) (*vpWorld, error) {
 	}
 	if cfg.EmailsFile != nil {
 		w.emailsPath = filepath.Join(tmp, "emails.txt")
-		if err := os.WriteFile(w.emailsPath, []byte(*cfg.EmailsFile), 0o600); err != nil {
+		if cfg.EmailsViaSymlink {
+			// a mounted volume in the Kubernetes style: the configured path is a symlink into a versioned data directory
+			w.emailsDir = tmp
+			os.MkdirAll(filepath.Join(tmp, "data_v1"), 0o755)
+			os.Symlink("data_v1", filepath.Join(tmp, "current"))
+			os.Symlink(filepath.Join("current", "emails.txt"), w.emailsPath)
+		}
+		target := w.emailsPath
+		if cfg.EmailsViaSymlink {
+			target = filepath.Join(tmp, "data_v1", "emails.txt")
+		}
+		if err := os.WriteFile(target, []byte(*cfg.EmailsFile), 0o600); err != nil {
 			return nil, err
 		}
 		o.AuthenticatedEmailsFile = w.emailsPath
